@@ -8,7 +8,7 @@ import multiprocessing as mp
 
 import z3
 
-from .path import explore, Results, OutOfSubset, Budget, Infeasible, PathEnd
+from .path import StopExploration, explore, Results, OutOfSubset, Budget, Infeasible, PathEnd
 from .interp import Interp, PyRaise
 from .world import World
 from .values import Obj
@@ -56,7 +56,9 @@ def run_unit(world, unit, timeout_ms=10000, budget_s=300, canary=False):
     res.unit = unit.name
     res.target = unit.target
     res.status = "ok"
+    res.exit_sat = False
     t0 = time.time()
+    saved_kinds = dict(world.elem_kinds)
     try:
         if unit.prepare:
             unit.prepare(world)
@@ -91,9 +93,13 @@ def run_unit(world, unit, timeout_ms=10000, budget_s=300, canary=False):
                          detail=f"host exception {out.exc_class} escapes ({out.exc.fields.get('msg', '')})")
             return
         res.cover(f"{unit.name}#cover:exit:{out.kind}")
+        if unit.canary and not res.exit_sat:
+            # vacuity guard: the assumptions made on the way (preconditions, contracts of callees, lemma instances) are
+            # satisfiable together at a function exit -- the postcondition `False` would fail here
+            res.exit_sat = it.path._check() == z3.sat
         if canary:
             it.check("canary", z3.BoolVal(False))
-            return
+            raise StopExploration()    # one reachable exit is all the vacuity check needs
         if unit.post is not None:
             unit.post(it, ctx, out)
 
@@ -112,6 +118,8 @@ def run_unit(world, unit, timeout_ms=10000, budget_s=300, canary=False):
         res.errors.append(f"{unit.name}: checker crash:\n{traceback.format_exc()}")
     finally:
         world.hooks.clear()
+        world.elem_kinds.clear()
+        world.elem_kinds.update(saved_kinds)
     res.wall = time.time() - t0
     return res
 
@@ -144,7 +152,8 @@ def pack(r):
         a["backend"] = sorted(a["backend"])
         obs[k] = a
     return {"unit": r.unit, "target": r.target, "status": r.status, "obs": obs, "paths": r.paths,
-            "solver_ms": r.solver_ms, "errors": r.errors, "covers": r.covers, "wall": r.wall}
+            "solver_ms": r.solver_ms, "errors": r.errors, "covers": r.covers, "wall": r.wall,
+            "exit_sat": getattr(r, "exit_sat", False)}
 
 
 def run_units(modname, indices=None, timeout_ms=10000, budget_s=300, procs=None, canary=False):
